@@ -1,17 +1,16 @@
 import Geo.Props.C06
-open Geo
-#print axioms T06_1_apply_point
-#print axioms T06_1_apply_hyperplane
-#print axioms T06_1_apply_quadric2
-#print axioms T06_1_apply_quadric3_line3
-#print axioms T06_1_apply_dual_quadric
-#print axioms T06_3_pow3
-#print axioms T06_2_point
-#print axioms T06_2_point_inv
-#print axioms T06_2_hyper
-#print axioms T06_2_hyper_inv
-#print axioms T06_2_quadric
-#print axioms T06_2_quadric_inv
-#print axioms T06_2_dual
-#print axioms T06_2_dual_inv
-#print axioms T06_3_pow
+#print axioms Geo.T06_1_apply_point
+#print axioms Geo.T06_1_apply_hyperplane
+#print axioms Geo.T06_1_apply_quadric2
+#print axioms Geo.T06_1_apply_quadric3_line3
+#print axioms Geo.T06_1_apply_dual_quadric
+#print axioms Geo.T06_3_pow3
+#print axioms Geo.T06_2_point
+#print axioms Geo.T06_2_point_inv
+#print axioms Geo.T06_2_hyper
+#print axioms Geo.T06_2_hyper_inv
+#print axioms Geo.T06_2_quadric
+#print axioms Geo.T06_2_quadric_inv
+#print axioms Geo.T06_2_dual
+#print axioms Geo.T06_2_dual_inv
+#print axioms Geo.T06_3_pow
